@@ -127,6 +127,8 @@ SPECS["C01"] = dict(
                                                 "harness/transport/zz_verif_c01up_test.go": "internal/upstream/transport/zz_verif_c01up_test.go"}),
                 params={"quick": {"PROGLEN": 2}, "thorough": {"PROGLEN": 3}},
                 budget={"quick": 60, "thorough": 900}),
+           dict(name="doh-replies", pkg="internal/upstream", run="TestVerifC01DoH", go="go", engines=("report", "refdns", "env", "sched", "choice"), shards=1, gomaxprocs=4,
+                files={"harness/upstream/zz_verif_c01doh_test.go": "internal/upstream/zz_verif_c01doh_test.go"}, budget={"quick": 120, "thorough": 120}),
            router_part("listeners", "TestVerifC01Listeners", ["zz_verif_c01_test.go", "zz_verif_c03_test.go"], shards=1, gomaxprocs=8, budget={"quick": 300, "thorough": 300})],
 )
 
@@ -152,7 +154,9 @@ SPECS["C05"] = dict(
                 params={"quick": {"PREEMPTIONS": 2}, "thorough": {"PREEMPTIONS": 4}}, budget={"quick": 60, "thorough": 600}),
            dict(name="udp-fallback", pkg="internal/upstream", run="TestVerifC16", go="go1.26", env=E3ENV, gomaxprocs=1, engines=E3ENGINES, shards=4,
                 files=dict(UPSTREAM_COMMON, **{"harness/upstream/zz_verif_c16_test.go": "internal/upstream/zz_verif_c16_test.go"}),
-                budget={"quick": 60, "thorough": 300})],
+                budget={"quick": 60, "thorough": 300}),
+           dict(name="udp-source", pkg="internal/upstream", run="TestVerifC05UDPSource", go="go", engines=("report", "refdns", "env", "sched", "choice"), shards=1, gomaxprocs=4,
+                files={"harness/upstream/zz_verif_c05src_test.go": "internal/upstream/zz_verif_c05src_test.go"}, budget={"quick": 60, "thorough": 60})],
 )
 
 SPECS["C06"] = dict(
@@ -487,6 +491,10 @@ def _decoder_own():
 
 SPECS["C20"]["parts"] = _c20_parts() + [_mem_e2("C20"), _decoder_own()]
 SPECS["C04"]["parts"].append(_mem_e2("C04"))
+SPECS["C04"]["parts"].append(dict(name="upstream-replies", pkg="internal/upstream/transport", run="TestVerifC01Upstream", go="go1.26", env=E3ENV, gomaxprocs=1, engines=E3ENGINES,
+                                  files=dict(TRANSPORT_COMMON, **{"harness/transport/zz_verif_c14_test.go": "internal/upstream/transport/zz_verif_c14_test.go",
+                                                                  "harness/transport/zz_verif_c01up_test.go": "internal/upstream/transport/zz_verif_c01up_test.go"}),
+                                  params={"quick": {"PROGLEN": 2}, "thorough": {"PROGLEN": 3}}, budget={"quick": 60, "thorough": 900}))
 SPECS["C08"]["parts"].append(_mem_e2("C08"))
 SPECS["C08"]["parts"].append(dict(name="mem-lifetime", pkg="internal/cache", run="TestVerifC08Mem", go="go1.26", env=E3ENV, gomaxprocs=1, engines=("choice", "report"), shards=8,
                                   files={"harness/cache/zz_verif_c08mem_test.go": "internal/cache/zz_verif_c08mem_test.go"},
